@@ -30,8 +30,9 @@ NAMES = ['r0', 'r1', 'r2', 'r3', 'r4']
 
 def gen_cases(tier, seed):
     n = {'quick': 150, 'thorough': 4000}[tier]
-    if tier == 'thorough':
-        for i in range(12):
+    # copies of more rows than the 10240-entry in-memory cache of the row store (long cases first)
+    if True:
+        for i in range(12 if tier == 'thorough' else 2):
             yield {'family': ['duplicate', 'duplicate_alias'][i % 2], 'idx': 10 ** 6 + i, 'seed': seed,
                    'big': True}
     for fam in FAMILIES:
